@@ -249,7 +249,7 @@ func reinitScenario(r *kit.Run) (c14Scenario, bool) {
 	log := w2.Board.Log()
 	view := w2.Nodes[1]
 	sc := c14Scenario{Name: "node1 finish-reinit || one poll tick over the first signing proposal", View: 1, Base: base, Log: log, APITag: "finish-reinit",
-		API:  func(nd *world.Node) error { return nd.SubmitResult(cloneOp15(res)) },
+		API:   func(nd *world.Node) error { return nd.SubmitResult(cloneOp15(res)) },
 		Name2: view.Name, Key: view.KeyPair}
 	w2.Close()
 	return sc, true
